@@ -89,14 +89,14 @@ C02_SuccessMeansAll ==
 C02_CyclicNeverRuns ==
   \A j \in J : V(j).cyclic =>
      /\ \A t \in TaskIds(j) : Run(j, t).begun = 0
-     /\ (st.phase = "drained" /\ Defined(st.jobs[j].p)) => (st.jobs[j].canceled /\ (st.jobs[j].lastErr # "" \/ UserCause(j) \/ ~st.jobs[j].started))
+     /\ (st.phase = "drained" /\ Defined(st.jobs[j].p) /\ st.jobs[j].listed) => (st.jobs[j].canceled /\ (st.jobs[j].lastErr # "" \/ UserCause(j) \/ ~st.jobs[j].started))
 
 NoTrouble(j) == /\ st.stop[j].n = 0 /\ st.ack[j].n = 0 /\ ~st.jobs[j].rst /\ ~st.jobs[j].lost
                 /\ \A t \in TaskIds(j) : Run(j, t).outcome \in {"none", "ok"} \/ (Run(j, t).outcome = "fail" /\ V(j).tasks[t].allow)
 C02_AcyclicCompletes ==
   \A j \in J : (~V(j).cyclic /\ st.jobs[j].bad = "none") =>
      /\ st.jobs[j].lastErr \notin {"cycle", "reserved"}
-     /\ (st.phase = "drained" /\ st.jobs[j].started /\ NoTrouble(j)) =>
+     /\ (st.phase = "drained" /\ st.jobs[j].listed /\ st.jobs[j].started /\ NoTrouble(j)) =>
            (Plain(st, j) /\ \A t \in TaskIds(j) : Run(j, t).begun = 1)
 
 -----------------------------------------------------------------------------
@@ -120,7 +120,7 @@ Acked(j) == st.ack[j].n > 0 /\ ~st.ack[j].wasFinished
 C04_NotStartedNeverRuns ==
   \A j \in J : (Acked(j) /\ ~st.ack[j].wasStarted) =>
      /\ \A t \in TaskIds(j) : Run(j, t).begun = 0
-     /\ Quiet => (st.jobs[j].canceled /\ ~st.jobs[j].started)
+     /\ (Quiet /\ st.jobs[j].listed) => (st.jobs[j].canceled /\ ~st.jobs[j].started)
 
 C04_StopDelivered ==
   Quiet => \A j \in J : (Acked(j) /\ st.ack[j].wasStarted) =>
@@ -131,7 +131,7 @@ C04_NoNewTaskAfterStop ==
   \A j \in J : st.stop[j].n >= 1 => \A t \in TaskIds(j) : Run(j, t).begun > 0 => st.stop[j].begunBefore[t]
 
 C04_ReportedCanceled ==
-  Quiet => \A j \in J : (Acked(j) /\ st.ack[j].wasStarted /\ (st.jobs[j].completed \/ st.phase = "drained")
+  Quiet => \A j \in J : (Acked(j) /\ st.ack[j].wasStarted /\ st.jobs[j].listed /\ ~st.jobs[j].rst /\ (st.jobs[j].completed \/ st.phase = "drained")
                            /\ \E t \in TaskIds(j) : ~st.ack[j].okAtAck[t]) =>
      /\ ~Plain(st, j)
      /\ ~st.ack[j].failedAtAck => st.jobs[j].canceled
@@ -216,7 +216,7 @@ C07_NewestWins ==
 
 C07_NewestRuns ==
   st.phase = "drained" => \A p \in Pipes : (Defined(p) /\ Cur(p).replace) =>
-     LET S == {j \in Of(st, p) : SameEpoch(j)} IN
+     LET S == {j \in Of(st, p) : SameEpoch(j) /\ st.jobs[j].listed /\ ~st.jobs[j].rst} IN
      S # {} => LET n == CHOOSE j \in S : \A k \in S : k <= j IN
                (st.jobs[n].started \/ st.ack[n].n > 0 \/ st.jobs[n].bad # "none" \/ V(n).cyclic)
 
@@ -231,7 +231,7 @@ C08_NoRunAfterFailedDep == [][C08_NoRunAfterFailedDepAct]_pvars
 FlagStable(j) == Defined(st.jobs[j].p) /\ Cur(st.jobs[j].p).cont = V(j).cont /\ SameEpoch(j)
 
 C08_FailFast ==
-  Quiet => \A j \in J : (FlagStable(j) /\ ~V(j).cont /\ \E t \in TaskIds(j) : FailedHard(j, t)) =>
+  Quiet => \A j \in J : (FlagStable(j) /\ ~V(j).cont /\ st.jobs[j].listed /\ ~st.jobs[j].rst /\ \E t \in TaskIds(j) : FailedHard(j, t)) =>
      /\ \A t \in TaskIds(j) : ~Run(j, t).open
      /\ (st.jobs[j].completed \/ st.phase = "drained") => (st.jobs[j].errored \/ st.jobs[j].lastErr # "")
      /\ ~Plain(st, j)
@@ -243,7 +243,7 @@ C08_FailFastNoNewTask ==
 C08_Continue ==
   \A j \in J : (FlagStable(j) /\ V(j).cont) =>
      /\ st.stop[j].n >= 1 => UserCause(j)
-     /\ (st.phase = "drained" /\ st.jobs[j].started /\ ~UserCause(j)) =>
+     /\ (st.phase = "drained" /\ st.jobs[j].listed /\ ~st.jobs[j].rst /\ st.jobs[j].started /\ ~UserCause(j)) =>
            \A t \in TaskIds(j) : (\A a \in Ancestors(j, t) : OkFor(j, a)) =>
                (Run(j, t).begun = 1 /\ ~Run(j, t).open)
 
@@ -404,7 +404,7 @@ C16_ReloadIsInert ==
   IsOp("reload") => /\ st.jobs = pre.jobs /\ st.runs = pre.runs /\ st.stop = pre.stop /\ st.extra = 0
 
 C16_AllTerminalAtDrain ==
-  st.phase = "drained" => \A j \in J : Defined(st.jobs[j].p) =>
-     (st.jobs[j].listed /\ Finished(st, j) /\ ~Executing(st, j))
+  st.phase = "drained" => \A j \in J : (Defined(st.jobs[j].p) /\ st.jobs[j].listed) =>
+     (Finished(st, j) /\ ~Executing(st, j))
 
 =============================================================================
